@@ -1,5 +1,6 @@
 //! Conformance harness binary `vh-topicsync`: one module per TLA+ specification (see /verif/spec).
 mod topicsync;
+mod wire;
 mod dedup;
 mod handshake;
 
